@@ -8,6 +8,7 @@ def run(R):
     common.load_ir(R)
     names = common.names_for(R, 'C08')
     obs = check.verify_functions(R, names)
+    obs += common.avr_pass(R, names)
     obs += common.lemma_obligations(R, 'C08')
     check.discharge(R, obs, timeout=120)
     exes = zc.harness(True)
